@@ -122,6 +122,14 @@ func (g *gen) part(richness, pInvalid int, allowBad bool) *Part {
 	if g.pct(richness / 2) {
 		p.Set = []string{fmt.Sprintf("e%d", n)}
 	}
+	if g.pct(richness / 3) {
+		for i, k := 0, g.in(1, 2); i < k; i++ {
+			p.SM = append(p.SM, map[string]int{words[g.r.IntN(len(words))]: n*10 + i})
+		}
+	}
+	if g.pct(richness / 3) {
+		p.MM = map[string][]string{words[g.r.IntN(len(words))]: {fmt.Sprintf("mm%d", n)}}
+	}
 	if g.pct(richness) {
 		p.NestS = sp(fmt.Sprintf("ns%d", n))
 	}
@@ -310,9 +318,20 @@ func genCore(prop string, seed uint64, faulty bool) *Scenario {
 	if long {
 		sc.MaxSteps = 60000
 	}
-	sc.Skip = g.pct(k.pSkip)
-	sc.Delay = !sc.Skip && g.pct(k.pDelay)
-	sc.Suppress = g.pct(k.pSuppress)
+	// every option combination occurs in every property's runs (at a low base
+	// rate where the property does not ask for more)
+	base := func(p, min int) int {
+		if p < min {
+			return min
+		}
+		return p
+	}
+	sc.Skip = g.pct(base(k.pSkip, 8))
+	sc.Delay = !sc.Skip && g.pct(base(k.pDelay, 10))
+	sc.Suppress = g.pct(base(k.pSuppress, 12))
+	if k.enablers == 0 {
+		k.enablers = 70
+	}
 	// defaults: valid by themselves
 	d := g.part(50, 0, false)
 	d.ID = 0
@@ -361,7 +380,7 @@ func genCore(prop string, seed uint64, faulty bool) *Scenario {
 		sc.Sources = append(sc.Sources, s)
 	}
 
-	if prop == "C06" && g.pct(25) {
+	if (prop == "C06" && g.pct(25)) || g.pct(6) {
 		sc.NoGlobalCB = true
 	}
 	if g.pct(k.cbSlow) {
@@ -484,7 +503,7 @@ func genCore(prop string, seed uint64, faulty bool) *Scenario {
 			}
 		}
 	}
-	if k.lifecycle {
+	{
 		hasDone := false
 		for _, c := range sc.Clients {
 			for _, op := range c.Ops {
@@ -508,6 +527,8 @@ func genCore(prop string, seed uint64, faulty bool) *Scenario {
 				}
 			}
 		}
+	}
+	if k.lifecycle {
 		sc.Late = true
 		if g.pct(50) {
 			sc.Shutdown = "done"
